@@ -285,9 +285,9 @@ const vMaxGap = 12 * time.Second
 
 // vPause lets `name` (0 .. vMaxGap, drawn) pass on the clock of both worlds.
 func vPause(name string) time.Duration {
-	ms := zzverif.U64(name + "_ms")
-	zzverif.Assume(ms <= uint64(vMaxGap/time.Millisecond))
-	gap := time.Duration(ms) * time.Millisecond
+	gap := time.Duration(zzverif.I64(name + "_ns"))
+	zzverif.Assume(gap >= 0)
+	zzverif.Assume(gap <= vMaxGap)
 	ta := time.Now()
 	time.Sleep(gap)
 	tb := time.Now()
@@ -297,20 +297,21 @@ func vPause(name string) time.Duration {
 }
 
 // H_C28_cleanupAfterPollSweep: "expired peers are removed only while disconnected" over an operation
-// sequence: records for A (never observed, or observed an arbitrary time ago) and B (never / 1 h ago);
-// optionally a poll sweep (forced or not) while A is connected or not; then A's connection state
+// sequence: records for A (never observed, or observed an arbitrary time ago) and B (observed 1 h ago,
+// i.e. expired, and connected throughout); a poll sweep while A is connected or not (the case without
+// a preceding poll sweep is H_C28_cleanup); then A's connection state
 // changes arbitrarily and an arbitrary pause of 0..12 s passes (covers both sides of the 10 s poll
 // tick); then the cleanup sweep runs, with ListPeers answering the *current* connection state or
 // failing.  The decision must follow the ListPeers answer at cleanup time: a peer connected then is
 // kept untouched even if expired; a peer disconnected then and observed > 30 min ago is removed;
 // nothing else is removed; a failing ListPeers skips the sweep, whatever an earlier sweep has seen.
-// Bounds: 2 peers (B's connection state constant), 1 poll sweep, pause <= 12 s, sends do not fail.
+// Bounds: 2 peers (B connected throughout), 1 poll sweep, pause <= 12 s, sends do not fail.
 // Clock: vClockStart, vPause; all clock readings lie within pause + vMaxRun.
 func H_C28_cleanupAfterPollSweep() {
 	zzverif.Unwind(64)
 	vClockStart()
 	ids := [2]string{vPeerA, vPeerB}
-	connA0, connA1, connB := zzverif.Bool("connected.A.at_poll"), zzverif.Bool("connected.A.at_cleanup"), zzverif.Bool("connected.B")
+	connA0, connA1, connB := zzverif.Bool("connected.A.at_poll"), zzverif.Bool("connected.A.at_cleanup"), true
 	listing := func(a bool) []PeerID {
 		var l []PeerID
 		if a {
@@ -339,7 +340,7 @@ func H_C28_cleanupAfterPollSweep() {
 				clear = time.Duration(age)+vMaxGap+2*vMaxRun <= timeout
 			}
 			zzverif.Assume(clear)
-		} else if zzverif.Bool("seen.B.hour_ago") {
+		} else {
 			age = int64(time.Hour)
 			seen = time.Now().Add(-time.Hour)
 		}
@@ -351,10 +352,8 @@ func H_C28_cleanupAfterPollSweep() {
 	}
 	ctx := context.Background()
 
-	if zzverif.Bool("poll_sweep") {
-		env.ln.peers = listing(connA0)
-		env.ps.poller.pollPeers(ctx, zzverif.Bool("poll_sweep.force"))
-	}
+	env.ln.peers = listing(connA0)
+	env.ps.poller.pollPeers(ctx, false)
 	// A's connection state changes (or not), time passes
 	env.ln.peers = listing(connA1)
 	env.ln.listErr = zzverif.Bool("listpeers.err_at_cleanup")
